@@ -56,10 +56,10 @@ PROP = {'gen': [],
  'trusted_base': [KERNEL,
                   'hand-written model View/ViewModel.v, tied to the code by the correspondence run',
                   HARNESS],
- 'assumptions': ['correspondence only (the theorems hold for every share function): flex factors of compared cases are positive numerators '
-                 'over a common power-of-two denominator with remain * factor < 2^53, for which the f64 share arithmetic of flex_layout is '
-                 'exact; trees with other doubles (non-dyadic, subnormal, huge, inf/NaN: the latter two are filtered to non-flex by the '
-                 'repaired code) and flex layouts under extents >= 2^40 are run against the property predicates only',
+ 'assumptions': ['correspondence only (the theorems hold for every share function): the model is compared when every factor of a flex node is a '
+                 'quarter with a small numerator (integers and doubles such as 1.0, 2.5, 0.25; binary64 is exact while remain * factor < 2^53) '
+                 'or a factor the repaired code filters to non-flex (inf, NaN, <= 0); a flex node with any other double (non-dyadic, subnormal, '
+                 'huge) and flex layouts under extents >= 2^40 are run against the property predicates only',
                  'scroll bar fractions are rationals num/den (den = 0 meaning ScrollBarPosition::from_counts with total 0)',
                  'pixels-per-cell: unbounded in the model; the code needs surface extent x pixels-per-cell <= usize::MAX (Image::render) and an '
                  'allocatable 3x3-cell pixel raster (Frame)',
